@@ -16602,6 +16602,9 @@ func (msg *BGPUpdate) DecodeFromBytes(data []byte, options ...*MarshallingOption
 	// data still holds the NLRI field after the attributes, and the scan has
 	// no framing of its own, so it has to stop at the declared boundary.
 	attributes := getBGPUpdateAttributes(data[:msg.TotalPathAttributeLen])
+	// RFC 7606 Section 4: whatever is wrong inside the attribute block, the
+	// Total Path Attribute Length locates the NLRI field.
+	nlriField := data[msg.TotalPathAttributeLen:]
 	o := MarshallingOption{
 		attributes: attributes,
 	}
@@ -16616,7 +16619,6 @@ func (msg *BGPUpdate) DecodeFromBytes(data []byte, options ...*MarshallingOption
 			if e.(*MessageError).Stronger(strongestError) {
 				strongestError = e
 			}
-			data = data[pathlen:]
 			break
 		}
 		p, err := GetPathAttribute(data)
@@ -16643,7 +16645,7 @@ func (msg *BGPUpdate) DecodeFromBytes(data []byte, options ...*MarshallingOption
 			if e.(*MessageError).Stronger(strongestError) {
 				strongestError = e
 			}
-			return strongestError
+			break
 		}
 		pathlen -= pLen
 		if len(data) < p.Len(options...) {
@@ -16652,7 +16654,7 @@ func (msg *BGPUpdate) DecodeFromBytes(data []byte, options ...*MarshallingOption
 			if e.(*MessageError).Stronger(strongestError) {
 				strongestError = e
 			}
-			return strongestError
+			break
 		}
 		data = data[p.Len(options...):]
 		// an attribute that failed to decode is only partly filled in: it
@@ -16662,6 +16664,7 @@ func (msg *BGPUpdate) DecodeFromBytes(data []byte, options ...*MarshallingOption
 		}
 	}
 
+	data = nlriField
 	msg.NLRI = make([]PathNLRI, 0)
 	for restlen := len(data); restlen > 0; {
 		id := uint32(0)
